@@ -632,7 +632,11 @@ func c11Chain(prefix string, L int) []vRec {
 		if i == L-1 {
 			next = "x"
 		}
-		recs = append(recs, vRec{Head: fmt.Sprintf("%s%d", prefix, i), HL: vLayout{EOL: "\n"}, Lines: []vLine{c11Entry(next, "2")}})
+		coef := "2"
+		if L > 40 {
+			coef = "1" // 2^L would leave the float64 range on long chains
+		}
+		recs = append(recs, vRec{Head: fmt.Sprintf("%s%d", prefix, i), HL: vLayout{EOL: "\n"}, Lines: []vLine{c11Entry(next, coef)}})
 	}
 	return recs
 }
@@ -738,6 +742,14 @@ type c11EnumSpec struct {
 
 func c11EnumSpace(maxN int) []c11EnumSpec {
 	var out []c11EnumSpec
+	// limits far above the default: chains just below, at and above the limit, and a cycle
+	for _, n := range []int{99, 100, 101, 999, 1000, 1001, 1500} {
+		for _, dl := range []int{-2, -1, 0, 1} {
+			out = append(out, c11EnumSpec{n, 0, n + dl, 0})
+		}
+		out = append(out, c11EnumSpec{n, 1, 3, 2})
+		out = append(out, c11EnumSpec{n, 2, n - 1, 0})
+	}
 	for n := 1; n <= maxN; n++ {
 		for L := 0; L <= n+3; L++ {
 			out = append(out, c11EnumSpec{n, 0, L, 0})
@@ -768,7 +780,7 @@ func TestVerifC11Random(t *testing.T) {
 func TestVerifC11Enum(t *testing.T) {
 	specs := c11EnumSpace(vPick(8, 12))
 	vEnum(t, "C11", "c11.enum",
-		"for every N up to the bound: pure chains of every length 0..N+3, chains of length 1..N+2 ending in an empty recipe, and cycles of length 1..4 entered at depth 0..3",
+		"for every N up to the bound and for N in {99,100,101,999,1000,1001,1500} (chains of length N-2..N+1 only): pure chains of every length 0..N+3, chains of length 1..N+2 ending in an empty recipe, and cycles of length 1..4 entered at depth 0..3",
 		fmt.Sprintf("N in 1..%d x (chain L in 0..N+3 | cycle K in 1..4 x entry depth 0..3)", vPick(8, 12)), len(specs),
 		func(i int) c11Case {
 			s := specs[i]
